@@ -46,7 +46,8 @@ def required_cells(tier):
     return ["dangling:quote", "dangling:angle", "dangling:computed", "dangling:in-dead-code", "dangling:evaluated>=2",
             "dangling:same-name-two-dirs", "dangling:same-name-both-forms", "dangling:site-reached-by-2+-commands",
             "unknown-directive:live", "unknown-directive:dead", "benign-directive:dead", "db:missing-file", "db:unknown-compiler",
-            "db:unknown-flags", "control:no-warnings", "totals-compared", "memo:failure-then-success-elsewhere"]
+            "db:unknown-flags", "control:no-warnings", "totals-compared", "memo:failure-then-success-elsewhere",
+            "db:unknown-flags>80-characters", "dangling:below-depth>=64"]
 
 
 def is_dangling(name):
@@ -207,6 +208,7 @@ def judge(case, exp, warnings, root, db_expect):
     dgot = collections.Counter()
     other = []
     dbgot = collections.Counter()
+    named = {"unknown-flags": collections.Counter(), "unknown-compiler": collections.Counter(), "missing-file": collections.Counter()}
     for w in warnings:
         first = w.split("\n")[0]
         m = INC_RE.match(first)
@@ -222,10 +224,14 @@ def judge(case, exp, warnings, root, db_expect):
             continue
         if first.startswith("Ignoring non-existent file"):
             dbgot["missing-file"] += 1
+            named["missing-file"][first.split(": ", 1)[-1].strip()] += 1
         elif re.match(r"Compiler '.*' not recognized", first):
             dbgot["unknown-compiler"] += 1
+            named["unknown-compiler"][re.match(r"Compiler '(.*)' not recognized", first).group(1)] += 1
         elif first.startswith("Unrecognized arguments"):
             dbgot["unknown-flags"] += 1
+            mm = re.match(r"Unrecognized arguments: '(.*)'$", first)
+            named["unknown-flags"][tuple(mm.group(1).split()) if mm else (first,)] += 1
         else:
             other.append(first)
     if got != exp["want"]:
@@ -246,6 +252,14 @@ def judge(case, exp, warnings, root, db_expect):
     for k in ("missing-file", "unknown-compiler", "unknown-flags"):
         if dbgot.get(k, 0) != db_expect.get(k, 0):
             problems.append({"kind": "database-level warnings", "category": k, "expected": db_expect.get(k, 0), "observed": dbgot.get(k, 0)})
+    # each database-level warning names what could not be honoured: every unknown flag, the compiler, the file
+    want_names = getattr(db_expect, "names", None)
+    if want_names is not None and not problems:
+        for k in named:
+            if named[k] != want_names[k]:
+                problems.append({"kind": "database-level warning does not name what was not honoured", "category": k,
+                                 "expected": [list(x) if isinstance(x, tuple) else x for x in sorted(want_names[k].elements())][:6],
+                                 "observed": [list(x) if isinstance(x, tuple) else x for x in sorted(named[k].elements())][:6]})
     if other:
         problems.append({"kind": "unexpected warning", "messages": other[:5]})
     return problems
@@ -256,6 +270,8 @@ def write_databases(case, base, rng, extras=True):
     root, out = forest.paths(base)
     by = {}
     exp = collections.Counter()
+    exp.names = {"unknown-flags": collections.Counter(), "unknown-compiler": collections.Counter(), "missing-file": collections.Counter()}
+    long_flags = ["--build-system-flag-%02d=value" % k for k in range(9)]      # about 250 characters when joined
     for tu in case["tus"]:
         path, defines, search, incs = forest.tu_args(tu, root, out)
         comp = "gcc"
@@ -270,19 +286,27 @@ def write_databases(case, base, rng, extras=True):
                 comp = rng.choice(["mycc", "/opt/bin/zcc", "xlc++"])
                 exp["unknown-compiler"] += 1
             elif x < 0.4:
-                argv += rng.choice([["-fmystery"], ["--weird=1", "-Wfoo"], ["-qsomething", "--opt=3"]])
+                fl = rng.choice([["-fmystery"], ["--weird=1", "-Wfoo"], ["-qsomething", "--opt=3"], long_flags,
+                                 long_flags[:4] + ["-fmystery"]])
+                argv += fl
                 exp["unknown-flags"] += 1
+                exp.names["unknown-flags"][tuple(fl)] += 1
             elif x < 0.5:
                 comp = rng.choice(["zcc-9", "/opt/x/bin/qcc"])
-                argv += rng.choice([["--mystery-flag"], ["--qopt-one", "--qopt-two"]])
+                fl = rng.choice([["--mystery-flag"], ["--qopt-one", "--qopt-two"]])
+                argv += fl
                 exp["unknown-compiler"] += 1
                 exp["unknown-flags"] += 1
+                exp.names["unknown-flags"][tuple(fl)] += 1
+            if exp["unknown-compiler"] and comp != "gcc":
+                exp.names["unknown-compiler"][os.path.basename(comp)] += 1
         argv = [comp] + argv + ["-c", path]
         by.setdefault(tu["platform"], []).append({"file": path, "directory": os.path.dirname(path), "arguments": argv})
         if extras and rng.random() < 0.25:
             by[tu["platform"]].append({"file": os.path.join(os.path.dirname(path), "generated_%d.c" % len(by[tu["platform"]])),
                                        "directory": os.path.dirname(path), "arguments": ["gcc", "-c", "generated.c"]})
             exp["missing-file"] += 1
+            exp.names["missing-file"][by[tu["platform"]][-1]["file"]] += 1
     os.makedirs(os.path.join(base, "dbs"), exist_ok=True)
     lines = []
     for p, entries in by.items():
@@ -308,6 +332,11 @@ def check_case(ctx, case, base, cls, via_cli, rng):
     for k, v in db_expect.items():
         if v:
             cells.add("db:" + k)
+    if any(len(" ".join(fl)) > 80 for fl in db_expect.names["unknown-flags"]):
+        cells.add("db:unknown-flags>80-characters")
+    deep = [r for r in case["files"] if re.search(r"/dp\d+\.h$", r)]
+    if len(deep) >= 64 and any(rel in deep and int(re.search(r"dp(\d+)", rel).group(1)) >= 64 and n for (rel, line, name, kind), n in exp["want"].items()):
+        cells.add("dangling:below-depth>=64")
     n_expected = sum(exp["want"].values()) + sum(1 for s in exp["dsites"] if s[3] == "unknown" and s[4]) + sum(db_expect.values())
     if n_expected == 0 and not any(s[3] == "unknown" for s in exp["dsites"]):
         cells.add("control:no-warnings")
@@ -390,7 +419,9 @@ def run_shard(ctx):
     for i in range(b["cases"] + b["inproc"]):
         via_cli = i < b["cases"]
         control = rng.random() < 0.2
-        case = forest.gen(rng, n_tus=rng.randint(1, 4), missing=0.0 if control else 0.3, findable=True)
+        # one case in 6: the dangling includes sit at the bottom of an include chain 40..100 levels deep
+        case = forest.gen(rng, n_tus=rng.randint(1, 4), missing=0.0 if control else 0.3, findable=True,
+                          deep=[40, 70, 100][(i // 6) % 3] if i % 6 == 2 else 0)
         for tu in case["tus"]:
             tu["search"] = [["I", d] for _, d in tu["search"]]
         if not control:
